@@ -233,8 +233,8 @@ Entries == {Entry(p) : p \in {q \in Pods : pods[q].st # "None"}}
              \cup {Ghost(p) : p \in {q \in Pods : ghost[q].st # "None"}}
 NoEnt == [st |-> "None", grp |-> <<>>, nom |-> 0]
 Lbl(op, call, p, st, grp) == [op |-> op, call |-> call, p |-> p, st |-> st, grp |-> grp]
-InLog(p) == \E i \in 1..Len(log) : log[i].p = p
-StmtKind == IF Len(log) = 0 THEN "none" ELSE log[1].s
+InLog(p) == \E i \in 1..Len(log) : log[i][1] = p
+StmtKind == IF Len(log) = 0 THEN "none" ELSE log[1][3]
 
 Init ==
   /\ nd = [n |-> NGpu, gpumem |-> GpuMem, cpu |-> NodeCpu, maxpods |-> MaxPods]
@@ -280,13 +280,14 @@ OpenSession ==
   /\ act' = Lbl("OpenSession", "None", 0, "None", <<>>)
   /\ UNCHANGED <<nd, kinds, pods, ghost, A, log, pc, seen>>
 
-Rec(p, k, s, pst, pgrp) == [p |-> p, k |-> k, s |-> s, pst |-> pst, pgrp |-> pgrp]
+\* log entries are tuples <<pod, kind, statement kind, previous status, previous groups>>
+Rec(p, k, s, pst, pgrp) == <<p, k, s, pst, pgrp>>
 RemoveAt(s, i) == SubSeq(s, 1, i - 1) \o SubSeq(s, i + 1, Len(s))
-VirtEvicted(p) == pods[p].st = "Releasing" /\ \E i \in 1..Len(log) : log[i].p = p /\ log[i].k = "evict"
-EvictIdx(p) == CHOOSE i \in 1..Len(log) : log[i].p = p /\ log[i].k = "evict"
-                                            /\ \A j \in 1..(i - 1) : ~(log[j].p = p /\ log[j].k = "evict")
+VirtEvicted(p) == pods[p].st = "Releasing" /\ \E i \in 1..Len(log) : log[i][1] = p /\ log[i][2] = "evict"
+EvictIdx(p) == CHOOSE i \in 1..Len(log) : log[i][1] = p /\ log[i][2] = "evict"
+                                            /\ \A j \in 1..(i - 1) : ~(log[j][1] = p /\ log[j][2] = "evict")
 Session == phase = "sess" /\ pc = <<>> /\ nops < MaxOps
-HasK(k) == \E i \in 1..Len(log) : log[i].k = k
+HasK(k) == \E i \in 1..Len(log) : log[i][2] = k
 
 \* ---- allocateTask -> allocateTaskToNode, allocate action (real allocation, stmt kind "A") ----
 PlaceA(p) ==
@@ -348,31 +349,31 @@ PlaceB(p) ==
                          /\ log' = Append(log, Rec(p, "cons", "B", "Releasing", pods[p].grp))
                     \* Statement.Pipeline -> Unevict (earliest evict of p, non-LIFO)
                     ELSE LET i == EvictIdx(p) IN
-                         /\ Do("Unevict", "Update", p, log[i].pst, log[i].pgrp)
+                         /\ Do("Unevict", "Update", p, log[i][4], log[i][5])
                          /\ log' = RemoveAt(log, i) /\ ghost' = ghost
      ELSE /\ seen' = seen /\ ghost' = ghost
           /\ IF pods[p].st = "None"
              THEN Do("Pipeline", "Add", p, "Pipelined", <<>>) /\ log' = Append(log, Rec(p, "pipe", "B", "None", <<>>))
              ELSE LET i == EvictIdx(p) IN
-                  Do("Unevict", "Update", p, log[i].pst, log[i].pgrp) /\ log' = RemoveAt(log, i)
+                  Do("Unevict", "Update", p, log[i][4], log[i][5]) /\ log' = RemoveAt(log, i)
   /\ UNCHANGED <<nd, kinds, phase, pc>>
 
 \* ---- Rollback / Discard: reverse operations in LIFO order ----
 UndoLast ==
   /\ phase = "sess" /\ pc = <<>> /\ Len(log) > 0 /\ nops < MaxOps
   /\ LET e == log[Len(log)] IN
-     /\ "ConsUndo" \in Excl => e.k # "cons"
+     /\ "ConsUndo" \in Excl => e[2] # "cons"
      /\ log' = SubSeq(log, 1, Len(log) - 1)
-     /\ CASE e.k = "alloc" -> Do("Unallocate", "Remove", e.p, "None", <<>>) /\ ghost' = ghost
-          [] e.k = "pipe"  -> Do("Unpipeline", "Remove", e.p, "None", <<>>) /\ ghost' = ghost
-          [] e.k = "cons"  -> Do("Unpipeline", "Remove", e.p, "None", <<>>) /\ ghost' = ghost
-          [] e.k = "evict" -> /\ Do("Unevict", UnevictCall(e.p), e.p, e.pst, e.pgrp)
+     /\ CASE e[2] = "alloc" -> Do("Unallocate", "Remove", e[1], "None", <<>>) /\ ghost' = ghost
+          [] e[2] = "pipe"  -> Do("Unpipeline", "Remove", e[1], "None", <<>>) /\ ghost' = ghost
+          [] e[2] = "cons"  -> Do("Unpipeline", "Remove", e[1], "None", <<>>) /\ ghost' = ghost
+          [] e[2] = "evict" -> /\ Do("Unevict", UnevictCall(e[1]), e[1], e[4], e[5])
                               \* the terminating incarnation is the pod itself again
-                              /\ ghost' = IF pods[e.p].st = "None" THEN [ghost EXCEPT ![e.p] = NoEnt] ELSE ghost
+                              /\ ghost' = IF pods[e[1]].st = "None" THEN [ghost EXCEPT ![e[1]] = NoEnt] ELSE ghost
   /\ UNCHANGED <<nd, kinds, phase, pc, seen>>
 
 \* ---- ConvertAllAllocatedToPipelined (allocate action, a task of the job was pipelined) ----
-FirstK(k) == CHOOSE i \in 1..Len(log) : log[i].k = k /\ \A j \in 1..(i - 1) : log[j].k # k
+FirstK(k) == CHOOSE i \in 1..Len(log) : log[i][2] = k /\ \A j \in 1..(i - 1) : log[j][2] # k
 ConvertStart ==
   /\ Session /\ StmtKind = "A" /\ HasK("pipe") /\ HasK("alloc")
   /\ pc' = <<"conv">> /\ nops' = nops + 1
@@ -380,7 +381,7 @@ ConvertStart ==
   /\ UNCHANGED <<nd, kinds, pods, ghost, A, log, phase, seen>>
 ConvertUnalloc ==
   /\ phase = "sess" /\ pc = <<"conv">> /\ HasK("alloc") /\ nops < MaxOps
-  /\ LET i == FirstK("alloc") p == log[i].p IN
+  /\ LET i == FirstK("alloc") p == log[i][1] IN
      /\ pc' = <<"convpipe", p, pods[p].grp>>
      /\ log' = RemoveAt(log, i)
      /\ Do("Unallocate", "Remove", p, "None", <<>>)
@@ -402,7 +403,7 @@ Commit ==
 \* commitAllocate fails: cleanupFailedAllocation = unallocate(p); the remaining operations are abandoned
 CommitFail(p) ==
   /\ Session /\ StmtKind = "A"
-  /\ \E i \in 1..Len(log) : log[i].p = p /\ log[i].k = "alloc"
+  /\ \E i \in 1..Len(log) : log[i][1] = p /\ log[i][2] = "alloc"
   /\ log' = <<>>
   /\ Do("Unallocate", "Remove", p, "None", <<>>)
   /\ UNCHANGED <<nd, kinds, ghost, phase, pc, seen>>
@@ -442,20 +443,27 @@ C02_Distinct == P02_Distinct(CurE)
 (* model-level triage: one pass over the whole reachable graph, every state in which a predicate
    fails is printed (a PREDICTION, to be confirmed or refuted by replaying the behaviour on the real
    NodeInfo) and exploration continues *)
-MChecks == << <<"C14_NodeUsed", C14_NodeUsed>>, <<"C14_NodeIdle", C14_NodeIdle>>,
-              <<"C14_NodeReleasing", C14_NodeReleasing>>, <<"C14_NodeUsedMem", C14_NodeUsedMem>>,
-              <<"C14_NodeAllocMem", C14_NodeAllocMem>>, <<"C14_NodeRelMem", C14_NodeRelMem>>,
-              <<"C14_NodeMarker", C14_NodeMarker>>, <<"C02_GroupFits", C02_GroupFits>>,
-              <<"C02_Exclusive", C02_Exclusive>>, <<"C02_Distinct", C02_Distinct>>, <<"TypeOK", TypeOK>> >>
-MFailing == {MChecks[i][1] : i \in {j \in 1..Len(MChecks) : ~MChecks[j][2]}}
+F(name, ok) == IF ok THEN {} ELSE {name}
+MFailing ==
+  F("C14_NodeUsed", C14_NodeUsed)
+  \cup F("C14_NodeIdle", C14_NodeIdle)
+  \cup F("C14_NodeReleasing", C14_NodeReleasing)
+  \cup F("C14_NodeUsedMem", C14_NodeUsedMem)
+  \cup F("C14_NodeAllocMem", C14_NodeAllocMem)
+  \cup F("C14_NodeRelMem", C14_NodeRelMem)
+  \cup F("C14_NodeMarker", C14_NodeMarker)
+  \cup F("C02_GroupFits", C02_GroupFits)
+  \cup F("C02_Exclusive", C02_Exclusive)
+  \cup F("C02_Distinct", C02_Distinct)
+  \cup F("TypeOK", TypeOK)
 ModelTriage == IF MFailing = {} THEN TRUE
                ELSE PrintT("MVERDICT " \o ToJson([failing |-> MFailing, op |-> act.op, depth |-> nops]))
 
-\* CONSTRAINT: a behaviour is followed until its first predicted failure (the failing state is still
-\* reported and its incoming edge exported, its successors are not generated)
+\* a behaviour is followed until its first predicted failure: the failing state is reported, its
+\* incoming edge is exported, no transition leaves it (ACTION_CONSTRAINT on the source state)
 Clean == MFailing = {}
 
 (* edge export (BUILDING.md option b): ACTION_CONSTRAINT Edge, VIEW view, -workers 1 *)
 \* (ToJson of whole states is ~20x slower than ToString; the states are only needed as identities)
-Edge == PrintT(<<"EDGE", ToJson(act'), ToString(view), ToString(view')>>)
+Edge == Clean /\ PrintT(<<"EDGE", ToJson(act'), ToString(view), ToString(view')>>)
 =============================================================================
